@@ -2,6 +2,7 @@ import Hpl.Wire.Sexp
 import Hpl.Model.Ast
 import Hpl.Model.Build
 import Hpl.Model.BuildProp
+import Hpl.Spec.Eval
 /-! Wire codec: AST values <-> S-expressions (DESIGN Appendix D). Driver-side only. -/
 namespace Hpl
 namespace Codec
@@ -188,6 +189,55 @@ def decRawProperty : Sexp → Option RawProperty
         | _ => none)
       pure ⟨← scopeKindOf sk, ← decOptRawEvent a, ← decOptRawEvent t, ← patternKindOf pk, ← decRawEvent b, ← decOptRawEvent tr, mx, ← decMeta md⟩
   | _ => none
+
+def encPrim : Prim → Sexp
+  | .bool b => .list [.atom "vb", ofBool b]
+  | .num q => .list (.atom "vn" :: encRat q)
+  | .pinf => .list [.atom "vinf"]
+  | .ninf => .list [.atom "vninf"]
+  | .str s => .list [.atom "vs", .str s]
+
+def decPrim : Sexp → Option Prim
+  | .list [.atom "vb", b] => do pure (.bool (← boolOf b))
+  | .list [.atom "vn", n, d] => do pure (.num (mkRatOf (← n.intOf) (← d.natOf)))
+  | .list [.atom "vinf"] => some .pinf
+  | .list [.atom "vninf"] => some .ninf
+  | .list [.atom "vs", .str s] => some (.str s)
+  | _ => none
+
+partial def encValue : Value → Sexp
+  | .prim p => encPrim p
+  | .arr vs => .list (.atom "varr" :: vs.map encValue)
+  | .msg fs => .list (.atom "vmsg" :: fs.map (fun kv => .list [.str kv.1, encValue kv.2]))
+  | .set ps => .list (.atom "vset" :: ps.map encPrim)
+  | .range lo hi a b => .list [.atom "vrange", encPrim lo, encPrim hi, ofBool a, ofBool b]
+
+partial def decValue : Sexp → Option Value
+  | .list (.atom "varr" :: vs) => do pure (.arr (← vs.mapM decValue))
+  | .list (.atom "vmsg" :: fs) => do
+      let kvs ← fs.mapM (fun kv => match kv with
+        | .list [.str k, v] => do pure (k, ← decValue v)
+        | _ => none)
+      pure (.msg kvs)
+  | .list (.atom "vset" :: ps) => do pure (.set (← ps.mapM decPrim))
+  | .list [.atom "vrange", lo, hi, a, b] => do pure (.range (← decPrim lo) (← decPrim hi) (← boolOf a) (← boolOf b))
+  | s => do pure (.prim (← decPrim s))
+
+/-- `(env <this> ("x" v)*)` -/
+def decEnv : Sexp → Option Env
+  | .list (.atom "env" :: t :: vars) => do
+      let kvs ← vars.mapM (fun kv => match kv with
+        | .list [.str k, v] => do pure (k, ← decValue v)
+        | _ => none)
+      pure ⟨← decValue t, kvs⟩
+  | _ => none
+
+def encEvErr : EvErr → Sexp
+  | .type => .list [.atom "everr", .atom "type"]
+  | .unbound => .list [.atom "everr", .atom "unbound"]
+  | .arith => .list [.atom "everr", .atom "arith"]
+  | .domain => .list [.atom "everr", .atom "domain"]
+  | .opaque => .list [.atom "everr", .atom "opaque"]
 
 def encErr (e : Err) : Sexp :=
   match e with
